@@ -28,8 +28,9 @@ type Interruption struct {
 var ErrTimeout = errors.New("read /dev/ttyS0: i/o timeout")
 var ErrFatal = errors.New("read /dev/ttyS0: input/output error")
 
-// Source is a simulated io.Reader.  It never returns data together with an
-// error (an *os.File never does).
+// Source is a simulated io.Reader.  By default it never returns data together
+// with an error (an *os.File never does); with DataWithErr it may, as the
+// io.Reader contract allows.
 type Source struct {
 	T        *rt.Tape
 	Data     []byte
@@ -37,6 +38,8 @@ type Source struct {
 	Ints     []Interruption
 	MaxChunk int  // 0: 64
 	ZeroReads bool // may return (0, nil)
+	DataWithErr bool // the data before an error may be returned together with it
+	DataErrs  int
 	Handed   []byte // every byte actually handed to the reader
 	active   *Interruption
 	silentTo time.Time
@@ -115,6 +118,31 @@ func (r *Source) Read(p []byte) (int, error) {
 	copy(p, r.Data[r.Pos:r.Pos+n])
 	r.Handed = append(r.Handed, r.Data[r.Pos:r.Pos+n]...)
 	r.Pos += n
+	if r.DataWithErr && n > 0 && r.Pos == lim && r.T.D(3) == 0 {
+		// io.Reader allows the last data before an error to come with the
+		// error itself (iotest.DataErrReader, network and decompressing readers)
+		r.DataErrs++
+		if r.Pos >= len(r.Data) && !(len(r.Ints) > 0 && r.Ints[0].At <= r.Pos) {
+			r.EndEOFs++
+			return n, io.EOF
+		}
+		r.active = &r.Ints[0]
+		r.Ints = r.Ints[1:]
+		r.active.fired = true
+		if r.active.Silence >= 0 {
+			r.silentTo = time.Now().Add(r.active.Silence)
+		}
+		switch {
+		case r.active.Fatal:
+			r.Fatals++
+			return n, ErrFatal
+		case r.active.Timeout:
+			r.Timeouts++
+			return n, ErrTimeout
+		}
+		r.EOFs++
+		return n, io.EOF
+	}
 	return n, nil
 }
 
